@@ -386,6 +386,7 @@ type writerSpec struct {
 	pre       map[string]bool // assumed about the inputs (documented per use)
 	domain    func(assume map[string]bool) bool
 	domainDoc string
+	args      func(s *sx) []SV // custom symbolic arguments
 }
 
 func checkWriter(c *Ctx, p *Program, spec writerSpec, maxRuns int) {
@@ -395,7 +396,11 @@ func checkWriter(c *Ctx, p *Program, spec writerSpec, maxRuns int) {
 		return
 	}
 	c.Func(FnName(fn))
-	out := sxExplore(p, fn, writerArgs(fn), maxRuns, spec.pre, spec.opaque...)
+	mk := writerArgs(fn)
+	if spec.args != nil {
+		mk = spec.args
+	}
+	out := sxExplore(p, fn, mk, maxRuns, spec.pre, spec.opaque...)
 	pos := p.Pos(fn.Pos())
 	key := FnName(fn)
 	succ, outside := 0, 0
@@ -517,12 +522,12 @@ func runC14(c *Ctx) {
 			continue
 		}
 		if c.Tier == "thorough" {
-			checkWriter(c, p, writerSpec{"mux", "Muxer.Assemble", []string{"frameDimensions", "canvasSize"}, nil, muxFrameDomain, muxFrameDomainDoc}, max)
+			checkWriter(c, p, writerSpec{rel: "mux", name: "Muxer.Assemble", opaque: []string{"frameDimensions", "canvasSize"}, domain: muxFrameDomain, domainDoc: muxFrameDomainDoc}, max)
 		} else {
 			c.Note("quick tier: Muxer.validate is not followed; its guarantee 'at least one frame' is assumed (the thorough tier follows it)")
-			checkWriter(c, p, writerSpec{"mux", "Muxer.Assemble", []string{"validate", "frameDimensions", "canvasSize"}, map[string]bool{"ge:1:len(m.frames)": true}, muxFrameDomain, muxFrameDomainDoc}, max)
+			checkWriter(c, p, writerSpec{rel: "mux", name: "Muxer.Assemble", opaque: []string{"validate", "frameDimensions", "canvasSize"}, pre: map[string]bool{"ge:1:len(m.frames)": true}, domain: muxFrameDomain, domainDoc: muxFrameDomainDoc}, max)
 		}
-		checkWriter(c, p, writerSpec{"", "writeRIFF", nil, nil, nil, ""}, max)
+		checkWriter(c, p, writerSpec{rel: "", name: "writeRIFF"}, max)
 		readerFile := func(fn *ssa.Function) bool {
 			f := p.Pos(fn.Pos())
 			return strings.HasPrefix(f, "mux/demux.go") || strings.HasPrefix(f, "mux/chunk.go") || strings.HasPrefix(f, "internal/container/")
